@@ -648,4 +648,37 @@ theorem valsOf_nums : ∀ vs : List Int, valsOf? (vs.map Elem.num) = some (vs.ma
   | [] => rfl
   | v :: vs => by simp [valsOf?, Elem.val?, valsOf_nums vs]
 
+/-! ### whole sequences -/
+
+theorem encRowsCells_eq (tys : List Ty) : ∀ (rows : List (List (Bool × Cell))) (vss : List (List Val)),
+    rowsVals? rows = some vss → (∀ r ∈ rows, ∀ c ∈ r, c.2.ok = true) →
+    (∀ r ∈ rows, r.map (·.2.ty?) = tys.map some) →
+    seqCols (tys.map fun ty => Tmpl.base ty []) = true →
+    WFrows (tys.map fun ty => .base ty []) (vss.map fun vs => .tuple (vs.map Data.scalar)) = true →
+    encRowsCells tys rows
+      = .ok (XdrSpec.encRows (tys.map fun ty => .base ty []) (vss.map fun vs => .tuple (vs.map Data.scalar)))
+  | [], vss, hv, _, _, _, _ => by
+    simp [rowsVals?] at hv; subst hv
+    simp [encRowsCells, XdrSpec.encRows, end_eq]
+  | r :: rows, vss, hv, hok, ht, hc, hw => by
+    simp only [rowsVals?] at hv
+    cases h1 : cellVals? (r.map (·.2)) with
+    | none => simp [h1] at hv
+    | some vs =>
+      cases h2 : rowsVals? rows with
+      | none => simp [h1, h2] at hv
+      | some vss' =>
+        simp [h1, h2] at hv
+        subst hv
+        simp only [List.map_cons, WFrows, Bool.and_eq_true] at hw
+        have ih := encRowsCells_eq tys rows vss' h2 (fun x hx => hok x (by simp [hx])) (fun x hx => ht x (by simp [hx]))
+          hc hw.2
+        have hrec : (if flatCols (tys.map fun ty => Tmpl.base ty []) = true then encCellsFlat tys (r.map (·.2))
+            else encCellsGeneral r) = .ok (XdrSpec.encs (tys.map fun ty => .base ty []) (vs.map Data.scalar)) := by
+          split
+          · next hf =>
+            rw [encCellsFlat_of_vals tys _ vs h1 hw.1, flatRecord_eq _ _ hf hc hw.1]
+          · exact encCellsGeneral_of_vals tys r vs h1 (hok r (by simp)) (ht r (by simp)) hw.1
+        simp only [encRowsCells, hrec, ih, List.map_cons, XdrSpec.encRows, start_eq]
+
 end Pydap.Xdr
